@@ -21,5 +21,8 @@ for pid in sys.argv[1:]:
             if nd <= 3:
                 print('DIFF', d[:3]); print('  case', dump(list(r['case']))[:700]); print('  cxx  ', dump(r['cxx'])[:500]); print('  model', dump(r['model'])[:500])
     viol = props.oracle(pid, res, metas, {})
+    cov = {}
+    viol += props.extra_checks(pid, rng, tier, {'cxx_exe': cx, 'model_exe': ml}, cov)
+    if cov: print('  extra', cov)
     print('%s: %d cases, %d diffs, %d oracle violations, %.1fs' % (pid, len(cases), nd, len(viol), time.time() - t0))
     for v in viol[:3]: print('  ORACLE', v['what'][:300])
